@@ -44,7 +44,12 @@ def run(report, db, tier):
     from .c11 import no_drop
     no_drop(report, db, S, M, rule_id='R13.5')
     call_packet(report, db, S)
-    decorator_form(report, db, S, M)
+    R6 = report.rule('R13.6', 'the decorator form registers like the direct '
+                     'call, however often the decorator is applied: one '
+                     'register_packet_listener(handler, *types, **options) '
+                     'per application, captured options left intact')
+    shared.decorator_form(report, R6, db, S, M, 'listener',
+                          'register_packet_listener', ('outgoing', 'early'))
 
 
 # ---------------------------------------------------------------------------
@@ -469,98 +474,3 @@ def call_packet(report, db, S):
         report.violation(R, 'listener:init', init.path, init.node,
                          init.qualname, 'the types given at registration '
                          'are not stored in the list call_packet iterates')
-
-
-# ---------------------------------------------------------------------------
-def decorator_form(report, db, S, M):
-    """Connection.listener(*types, **options) returns a decorator; applying
-    it registers the handler exactly as register_packet_listener(handler,
-    *types, **options) would -- every time it is applied: the decorator must
-    not use up what it captured."""
-    from ..pathsum import MUTATORS
-    R = report.rule('R13.6', 'the decorator form registers like the direct '
-                    'call, however often the decorator is applied: one '
-                    'register_packet_listener(handler, *types, **options) '
-                    'per application, captured options left intact')
-    lst = db.own_method(M.conn, 'listener')
-    if lst is None:
-        raise AnalysisError('Connection.listener vanished')
-    reg = M.conn_method('register_packet_listener')
-    inner = [f for f in db.funcs if f.outer is lst]
-    if len(inner) != 1:
-        raise AnalysisError('Connection.listener: expected one nested '
-                            'decorator, found %d' % len(inner), lst.node,
-                            rel(lst.path))
-    dec = inner[0]
-    va = lst.node.args.vararg
-    kw = lst.node.args.kwarg
-    captured = set(lst.params) | ({va.arg} if va else set()) | (
-        {kw.arg} if kw else set())
-    prob = []
-    site = dec.node
-    n = 0
-    for p in S.run(dec):
-        evs = p.flat(('call', 'setitem', 'delitem', 'store'))
-        for e in evs:
-            recv = None
-            if e.kind == 'call' and e.fn[0] == 'attr' and \
-                    e.fn[2] in MUTATORS:
-                recv = e.fn[1]
-            elif e.kind in ('setitem', 'delitem'):
-                recv = e.base
-            if recv is not None and recv[0] == 'sym' and recv[1] in captured:
-                prob.append('the decorator changes the captured `%s` (%s): '
-                            'the second handler it is applied to is '
-                            'registered with what the first one left'
-                            % (recv[1], repr(e)[:50]))
-                site = e.node
-        if not p.returns:
-            if p.raises and len(p.outcome) == 3:
-                continue        # an explicit refusal of bad options
-            continue
-        n += 1
-        regs = [e for e in evs if e.kind == 'call' and e.calls(reg)]
-        if len(regs) != 1:
-            prob.append('an application registers %d listeners [%s]'
-                        % (len(regs), p.cond_text()))
-            continue
-        e = regs[0]
-        args = [a for a in e.args if struct(a) != sy(lst.params[0])]
-        if not args or struct(args[0]) != sy(dec.params[0]):
-            prob.append('the decorated function is not the handler that is '
-                        'registered')
-        if va and not any(a[0] == 'op' and a[1] == 'star' and
-                          struct(a[2][0]) == sy(va.arg) for a in args[1:]):
-            prob.append('the packet types given to listener() are not '
-                        'passed on')
-        if kw:
-            kws = dict(e.kwargs)
-            if struct(kws.get('**', ('none',))) != sy(kw.arg):
-                for k in ('outgoing', 'early'):
-                    v = kws.get(k)
-                    ok = v is not None and (
-                        (v[0] == 'call' and v[1][0] == 'attr'
-                         and struct(v[1][1]) == sy(kw.arg)
-                         and v[1][2] in ('get', 'pop') and v[2]
-                         and v[2][0] == ('const', k))
-                        or (v[0] == 'op' and v[1] == 'index'
-                            and struct(v[2][0]) == sy(kw.arg)
-                            and v[2][1] == ('const', k)))
-                    if not ok:
-                        prob.append('the option `%s` given to listener() is '
-                                    'not what the registration receives (%s)'
-                                    % (k, show(v) if v is not None
-                                       else 'nothing'))
-        if p.value is None or struct(p.value) != sy(dec.params[0]):
-            prob.append('the decorator does not return the function it '
-                        'decorated')
-    if not n:
-        raise AnalysisError('listener decorator: no returning path',
-                            dec.node, rel(dec.path))
-    if prob:
-        report.violation(R, 'decorator:listener', dec.path, site,
-                         dec.qualname, '; '.join(sorted(set(prob))))
-    else:
-        report.ok(R, 'listener(...)(f): one registration of f with the '
-                  'captured types and options, nothing captured is changed, '
-                  'f returned')
